@@ -611,6 +611,18 @@ pub fn directed() -> Vec<Doc> {
                     }
                 }
             }
+            if bytes.len() <= 4096 {
+                // bytes that mean something to a reader (terminator, macro marks, all-ones filler,
+                // line and column separators) at every position of a small object
+                let marks: &[u8] = if is_text(format) { &[0x00, b'\n', b'\t', b'<', 0xFF] } else { &[0x00, 0x02, 0x03, 0xFF] };
+                for off in 0..bytes.len() {
+                    for v in marks {
+                        if bytes[off] != *v {
+                            push(C17Doc::Buffer { format: format.to_string(), base: base.clone(), damage: vec![Damage::SetByte { off, value: *v }] }, &mut out);
+                        }
+                    }
+                }
+            }
             if !is_text(format) {
                 // two header fields made large together (one may be the bound the other is checked against)
                 let fs = fields_for(format, &bytes);
